@@ -754,7 +754,8 @@ func runC09(c *vh.Ctx) {
 				c.Dist("text-paths:c08-overlap")
 			case perr != nil || c09Show(pjt, true) != c09Show(pj, true):
 				// JSON -> text -> parse differs from JSON alone
-				if perr != nil && bytes.Contains(txt, []byte("\uFFFD")) {
+				if _, e2 := c09ParseText(bytes.ReplaceAll(txt, []byte("\uFFFD"), []byte("X"))); perr != nil && bytes.Contains(txt, []byte("\uFFFD")) && e2 == nil {
+					// attribution by repair: the same text with U+FFFD replaced parses, so U+FFFD is the cause
 					// the text scanner treats U+FFFD (utf8.RuneError) in the SOURCE as a decoding error
 					c.Report(vh.Finding{Class: "text-rejects-replacement-char", What: fmt.Sprintf("JSON -> text -> parse fails (%v): the rendered text contains U+FFFD: %s", perr, txt), Check: "oracle", Op: "json-text-json", Input: string(jb)})
 				} else if tr.literalClass != "" {
